@@ -367,22 +367,79 @@ def _uniform(res, index):
     want0 = Poly.const(Fraction(1, 2)) * n_atom * sin2
     a0 = next((v for v in env.values() if v.sym is not None and v.sym == want0), None)
     raises = [x for x in r["raises"] if x[0] == "ValueError"]
-    lin = [n_ for n_ in ast.walk(mk.node) if isinstance(n_, ast.Call) and ast.unparse(n_.func) == "np.linspace"]
-    lin_ok = False
+    # recognise-then-judge: `wrong` = a recognised construct contradicts the definition (violation);
+    # `unknown` = a formulation the recogniser does not know (analysis error, never a violation)
+    wrong, unknown = [], []
+    import math as _math
+
+    def _numval(node_):
+        return _num(node_, {"pi": _math.pi}) if not (isinstance(node_, ast.Attribute) and ast.unparse(node_) in ("np.pi", "math.pi")) else _math.pi
+
+    def _two_pi(node_):
+        try:
+            txt = ast.unparse(node_).replace("np.pi", "pi").replace("math.pi", "pi")
+            v_ = _num(ast.parse(txt, mode="eval").body, {"pi": _math.pi})
+        except Exception:
+            v_ = None
+        return v_ is not None and abs(v_ - 2 * _math.pi) < 1e-12
+
+    lin = [n_ for n_ in ast.walk(mk.node) if isinstance(n_, ast.Call) and ast.unparse(n_.func) in ("np.linspace", "linspace")]
     if lin:
         c0 = lin[0]
-        kws = {k.arg: ast.unparse(k.value) for k in c0.keywords}
-        lin_ok = ast.unparse(c0.args[0]) == "0" and kws.get("endpoint") == "False" and kws.get("num", ast.unparse(c0.args[2]) if len(c0.args) > 2 else "") == "n"
-    theta_ok = any(isinstance(n_, ast.Assign) and isinstance(n_.value, ast.BinOp) and isinstance(n_.value.op, ast.Add)
-                   and "linspace" in ast.unparse(n_.value.left) and ast.unparse(n_.value.right) == "angle" for n_ in ast.walk(mk.node))
+        kws = {k.arg: k.value for k in c0.keywords}
+        start = c0.args[0] if c0.args else kws.get("start")
+        stop = c0.args[1] if len(c0.args) > 1 else kws.get("stop")
+        num = c0.args[2] if len(c0.args) > 2 else kws.get("num")
+        endp = c0.args[3] if len(c0.args) > 3 else kws.get("endpoint")
+        if not (start is not None and _num(start, {}) == 0.0):
+            wrong.append("linspace does not start at 0")
+        if not (stop is not None and _two_pi(stop)):
+            wrong.append("linspace does not stop at 2 pi")
+        if not (isinstance(num, ast.Name) and num.id == mk.params[0]):
+            wrong.append("linspace does not produce n angles")
+        if not (isinstance(endp, ast.Constant) and endp.value is False):
+            wrong.append("linspace includes the end point (first vertex duplicated)")
+    elif any(isinstance(n_, ast.Call) and ast.unparse(n_.func) in ("np.arange", "arange") for n_ in ast.walk(mk.node)):
+        wrong.append("angles come from arange with a float step: the number of angles is n or n + 1 depending on rounding")
+    else:
+        unknown.append("generation of the n angles not recognised")
+    trig = [e for e in r["events"] if e.type == "trigcall" and e.fn in ("cos", "sin") and e.arg is not None and e.arg.kind not in ("float", "int")]
+    if trig and not all("angle" in e.arg.pdeps for e in trig):
+        wrong.append("the rotation `angle` does not reach the vertex angles")
+    elif not trig:
+        unknown.append("cos / sin of the vertex angles not found")
     want_scale = (Poly.atom("A").div(want0)).pow(Fraction(1, 2))
-    scale_ok = any(e.type == "augassign" and e.op == "Mult" and e.rhs.sym is not None and e.rhs.sym == want_scale for e in r["events"])
+
+    def _is_scale(v):
+        return v is not None and v.sym is not None and v.sym == want_scale
+    # the xy coordinates are multiplied by sqrt(area / area_0): in place, through a named factor, or out of place
+    scale_ok = any(e.type == "augassign" and e.op == "Mult" and _is_scale(e.rhs) for e in r["events"]) \
+        or any(e.type == "local-store" and e.value is not None and e.value.extra and isinstance(e.value.extra, tuple)
+               and e.value.extra[0] == "factor" and _is_scale(e.value.extra[1]) for e in r["events"])
+    if a0 is None:
+        cands = [v for v in env.values() if v is not None and v.sym is not None and "sin<" in repr(v.sym) and not v.has_const()]
+        (wrong if cands else unknown).append(f"area of the unit-circumradius n-gon is not n/2 sin(2 pi/n)" + (f" but {cands[0].sym}" if cands else " (not found)"))
+    if not scale_ok:
+        res_v = r["result"]
+        if res_v is not None and "area" not in res_v.pdeps:
+            wrong.append("`area` does not reach the vertices")
+        else:
+            facs = [e.rhs.sym for e in r["events"] if e.type == "augassign" and e.op == "Mult" and e.rhs.sym is not None]
+            (wrong if facs else unknown).append("coordinates are not scaled by sqrt(area / area_0)" + (f" but by {facs[0]}" if facs else ""))
     guard = any(e.type == "cmp" and e.form == "compare" and e.op == "Lt" and e.left.sym == n_atom and e.right.is_number_const()
                 and e.right.const == 3 for e in r["events"])
-    ok = a0 is not None and a0.sym == want0 and bool(raises) and lin_ok and theta_ok and scale_ok and guard
-    _verdict(res, ok, "UV-1", "_make_ngon", where, "theta = linspace(0, 2 pi, n, endpoint=False) + angle; area_0 = n/2 sin(2 pi/n); "
-             "scale sqrt(area/area_0); n < 3 -> ValueError",
-             f"area_0 = {a0.sym if a0 is not None else None}; raises {[x[0] for x in r['raises']]}; linspace {lin_ok}; +angle {theta_ok}; scale {scale_ok}; guard {guard}")
+    if not raises:
+        wrong.append("n < 3 does not raise ValueError")
+    elif not guard:
+        gs_ = [e for e in r["events"] if e.type == "cmp" and e.form == "compare" and (e.left.sym == n_atom or e.right.sym == n_atom)]
+        (wrong if gs_ else unknown).append("the guard is not n < 3")
+    if wrong:
+        res.bad("UV-1", "_make_ngon", where, "_make_ngon: expected theta = linspace(0, 2 pi, n, endpoint=False) + angle; area_0 = n/2 sin(2 pi/n); "
+                "scale sqrt(area/area_0); n < 3 -> ValueError; found " + "; ".join(wrong))
+    elif unknown:
+        raise AnalysisError("_make_ngon left the recognised fragment: " + "; ".join(unknown))
+    else:
+        res.ok("UV-1", "_make_ngon", sample={"family": "_make_ngon", "identity": "linspace(0, 2 pi, n, endpoint=False) + angle, scale sqrt(area / (n/2 sin(2 pi/n)))"})
 
 
 def _verdict(res, ok, rule, key, where, what, detail):
